@@ -583,3 +583,9 @@ func spellDash(r *core.Rand, a, b string) (string, bool) {
 	}
 	return a + " - " + b, true
 }
+
+func init() {
+	// U+FFFD is an ordinary valid character (it is also what invalid bytes decode to)
+	unicodeWords = append(unicodeWords, "repl�ced", "�", "x�")
+	jsonWords = append(jsonWords, "�\"q")
+}
